@@ -181,6 +181,14 @@ def run_wire(pid, tier, seed, replay):
     # 1. exhaustive: the model of decoder + connection loop satisfies the contract for every segmentation / cut
     run.add_mc("MC_Wire", "MC_Wire_seg", workers=10)
     run.add_mc("MC_Wire", "MC_Wire_cut", workers=10)
+    if pid in ("C11", "C12"):
+        # the write side under back-pressure: partial writes, a send buffer, a client that reads when it likes - the client's
+        # view is a prefix of the whole responses in order; a single write call per response must fail
+        run.add_mc("WireOut", "MC_WireOut", workers=2)
+        r = tlc_mc("WireOut", "MC_WireOut_once", workers=2, timeout=300)
+        if r["ok"] or r["violated"] != "StreamOK":
+            raise ToolError("WireOut with a single write call per response should violate StreamOK (got %s)" % r["violated"])
+        run.extra["sensitivity"] = "WireOut with WriteAll = FALSE violates StreamOK, as expected"
     # 2. spec -> code: TLC cases at the decoder and over a socket
     cases, ncases = gen_wire_cases(run, seed, 300 if quick else 3000)
     jobs = []
